@@ -150,6 +150,13 @@ where
                     break;
                 }
             }
+
+            if upgraded {
+                // what the service sent right behind its reply is already in our buffer and would
+                // be lost with it: it is the beginning of the upgraded session
+                client_writer.write_all(service_bufreader.buffer())?;
+                client_writer.flush()?;
+            }
         } else if let Some(ref mut service_stream) = last_service_stream {
             // what the client sent behind the upgrading request belongs to the service
             let mut service_writer = service_stream.try_clone()?;
